@@ -344,7 +344,14 @@ func (ex *Exec) choose(alts []*Term) int {
 				return i
 			}
 		}
-		panic(pathAbort{"unsupported: symbolic decision in concrete mode"})
+		d := ""
+		if len(alts) > 0 {
+			d = alts[0].smt()
+			if len(d) > 200 {
+				d = d[:200]
+			}
+		}
+		panic(pathAbort{"unsupported: symbolic decision in concrete mode " + d})
 	}
 	if ex.pos < len(ex.prefix) {
 		c := int(ex.prefix[ex.pos])
